@@ -999,6 +999,8 @@ impl<'a> Gen<'a> {
                     14 => {
                         // injected values of every JSON kind are read through every access path
                         self.line("ext_p(DEBUG_LEVEL, _G.DEBUG_LEVEL, _G[\"DEBUG_LEVEL\"], DEBUG, _G.DEBUG)");
+                        self.line("if type(DEBUG_LEVEL) == \"table\" then ext_p(DEBUG_LEVEL[1], DEBUG_LEVEL[2], DEBUG_LEVEL[3], DEBUG_LEVEL[4], DEBUG_LEVEL.offset, type(DEBUG_LEVEL.list) == \"table\" and DEBUG_LEVEL.list[3], type(DEBUG_LEVEL.deep) == \"table\" and DEBUG_LEVEL.deep.n) end");
+                        self.line("if type(DEBUG) == \"table\" then ext_p(DEBUG[1], DEBUG[2], DEBUG[3], DEBUG[4], DEBUG.offset) end");
                     }
                     8 => match self.rng.below(3) {
                         // table-call syntax: keys of [k] = v entries are evaluated too
